@@ -141,3 +141,11 @@ _m("C18", "always-on monitors on every model.timestep and calc_timestep call: pe
           "Workload: all 1D models on all meshes with Mach/Froude up to 10, ratios up to 1e4, at rest, CFL over 10^+-3; 2D random "
           "grids incl. rest, hypersonic and axis-aligned flow; real solves (global and dtlocal) whose recorded main-step arguments "
           "must equal min over cells / the cell array.  non-trivial: every case; distinct = hash(config + data + CFL).")
+
+_m("C19", "twin discretisations on the same field through the real rhs: (euler1d | shallow water | nozzle) with counted, state- and "
+          "position-dependent source callables on every subset of equations (exhaustive over the 2^neq subsets) vs the same model "
+          "without; nozzle vs euler1d for constant/linear/gaussian/exponential/polynomial section laws (face-difference dA/dx); all "
+          "meshes, fluxes, reconstructions, boundary conditions.  The difference of residuals must be the source evaluated by the "
+          "monitor, None entries exactly 0, every callable called exactly once per rhs, no leak between model instances.  "
+          "non-trivial: finite residuals; distinct = hash(config + sources).",
+   exhaustive_groups=["subsets of equations carrying a source (2^neq per model)"])
